@@ -171,7 +171,7 @@ def bond_norm(pts, sorts):
     return [BondS.lo(p) <= BondS.hi(p) for p, s in zip(pts, sorts) if s == "bond"]
 
 
-def run_method(world, cname, mname, contract, iter_bound=2, attr_access=None, callee_contracts=None, chg_one_slot=False):
+def run_method(world, cname, mname, contract, iter_bound=2, attr_access=None, callee_contracts=None, chg_one_slot=False, loop_contracts=None):
     """-> (paths, None) ; each path.handles has g0, g1, h0, h1, v0, sym, bounded"""
     it = Interp(world)
     GM.install(it)
@@ -179,11 +179,14 @@ def run_method(world, cname, mname, contract, iter_bound=2, attr_access=None, ca
     cls = world.cls(cname)
     for key, fn in (callee_contracts or {}).items():
         it.contracts[key] = fn
+    from .interp import Builtin as _B
+    it.builtins["__for__"] = _B("__for__", for_hook)
 
     def thunk(interp, handles):
         interp.state["heap"] = Heap("pre")
         interp.state["iter_bound"] = iter_bound
         interp.state["chg_one_slot"] = chg_one_slot
+        interp.state["loop_contracts"] = loop_contracts
         h = heap_of(interp)
         g = GM.sym_graph(interp, cname, "g_")
         interp.assume(h.A0 >= 0)
@@ -220,11 +223,11 @@ def run_method(world, cname, mname, contract, iter_bound=2, attr_access=None, ca
     return it.run(thunk)
 
 
-def verify_mutator(obs, world, cname, mname, contract, pid_map, timeout=20000, iter_bound=2, callee_contracts=None, chg_one_slot=False):
+def verify_mutator(obs, world, cname, mname, contract, pid_map, timeout=20000, iter_bound=2, callee_contracts=None, chg_one_slot=False, loop_contracts=None):
     """pid_map: {"C19": bool, "C09": bool} which property's clauses to emit"""
     base = f"{REL[cname]}:{cname}.{mname}"
     try:
-        paths = run_method(world, cname, mname, contract, iter_bound, callee_contracts=callee_contracts, chg_one_slot=chg_one_slot)
+        paths = run_method(world, cname, mname, contract, iter_bound, callee_contracts=callee_contracts, chg_one_slot=chg_one_slot, loop_contracts=loop_contracts)
     except OutOfSubset as e:
         obs.append(Ob(f"E1/{base}", "proof", ERROR, detail=f"out of subset: {e}"))
         return
@@ -246,6 +249,7 @@ def verify_mutator(obs, world, cname, mname, contract, pid_map, timeout=20000, i
         E = contract.error(v0, sym, cname)
         OK = z3.And(z3.Not(R), z3.Not(E))
         raised = p.outcome[0] == "raise"
+        loopstep = p.outcome[0] == "loopstep"
         v1 = GM.View(h1, g1)
         spec = contract.spec(v0, sym, cname)
 
@@ -293,7 +297,7 @@ def verify_mutator(obs, world, cname, mname, contract, pid_map, timeout=20000, i
         def emit(pid, clause, fs, what, skolems=()):
             pending.append((pid, clause, fs, what, list(skolems)))
 
-        if pid_map.get("C19"):
+        if pid_map.get("C19") and not loopstep:
             if raised:
                 emit("C19", "rejected-request-changes-nothing", [R, z3.Not(unchanged(h0, h1, g0, g1))], "a rejected request changed the graph")
                 emit("C19", "failed-request-changes-nothing", [E, z3.Not(unchanged(h0, h1, g0, g1))], "a request that raised changed the graph")
@@ -302,6 +306,8 @@ def verify_mutator(obs, world, cname, mname, contract, pid_map, timeout=20000, i
         if pid_map.get("C09"):
             if raised:
                 emit("C09", "well-formed-request-does-not-raise", [OK], f"a well-formed request raised {p.outcome[1]}")
+            elif loopstep:
+                pass  # the generic iteration of an invariant-annotated loop: its obligations are the intermediate ones below
             else:
                 for cn, (sorts, getter, guard) in comps.items():
                     pts = skolem(sorts, f"{cn}")
@@ -630,3 +636,86 @@ def verify_derivation(obs, world, cname, dname, contract, pid, timeout=20000, it
             if "source" in want and contract.source_untouched:
                 emit(pid if pid != "C10" else "C10", "source-untouched", [z3.Not(unchanged(h0, h1, g0, g1))], "the derivation modified its source")
         flush(obs, pending, pre, instances, base, i, kind, p, sym_flat, raised, timeout)
+
+
+# ------------------------------------------------------------------------------------------------ invariant-annotated loops
+import ast as _ast
+
+
+class LoopCtx:
+    def __init__(self, interp, fr, g, h_entry, C):
+        self.interp, self.fr, self.g, self.h_entry, self.C = interp, fr, g, h_entry, C
+        self.g_entry = Obj(g.cls, dict(g.fields))
+        self.v_entry = GM.View(h_entry, self.g_entry)
+
+    def view(self):
+        return GM.View(heap_of(self.interp).snapshot(), Obj(self.g.cls, dict(self.g.fields)))
+
+
+def loop_ordinal(func, node):
+    loops = sorted((n for n in _ast.walk(func) if isinstance(n, (_ast.For, _ast.While))), key=lambda n: (n.lineno, n.col_offset))
+    return loops.index(node)
+
+
+def for_hook(interp, s, fr, iterable):
+    from .interp import LoopStepDone, NotHandled, _Continue
+
+    contracts = interp.state.get("loop_contracts")
+    if not contracts or fr.func is None or fr.defcls is None:
+        return NotHandled
+    key = (fr.module.relpath, f"{fr.defcls.name}.{fr.func.name}", loop_ordinal(fr.func, s))
+    cls = contracts.get(key)
+    if cls is None:
+        return NotHandled
+    lc = cls()
+    h = heap_of(interp)
+    g = fr.env.get("self")
+    # membership array of the collection being traversed and how an element is bound to the loop target
+    if isinstance(iterable, H.SymSeq):
+        C, esort = iterable.arr, iterable.esort
+        src = iterable.source
+    elif isinstance(iterable, H.DictItems):
+        C, esort, src = z3.Select(h.dom[iterable.d.t.name], iterable.d.ref), iterable.d.t.ksort, iterable.d
+    elif isinstance(iterable, H.SetRef):
+        C, esort, src = iterable.arr(interp), iterable.t.esort, None
+    else:
+        return NotHandled
+    if hasattr(lc, "setup"):
+        lc.setup(ctx_iter := None, iterable) if False else lc.setup(None, iterable)
+    interp.state["n_loops"] = interp.state.get("n_loops", 0) + 1
+    tag = f"L{interp.state['n_loops']}"
+    ctx = LoopCtx(interp, fr, g, h.snapshot(), C)
+    empty = z3.K(esort, z3.BoolVal(False))
+    for name, f in lc.inv(ctx, empty):
+        interp.oblige(f"loop{key[2]}-invariant-holds-initially/{name}", f)
+    # havoc everything the body may modify
+    for n in lc.modifies_dict_dom:
+        h.dom[n] = z3.Const(f"dom_{n}!{tag}", H.DICT_TYPES[n].dom_sort)
+    for n in lc.modifies_dict_val:
+        h.val[n] = z3.Const(f"val_{n}!{tag}", H.DICT_TYPES[n].val_sort)
+    for n in lc.modifies_set:
+        h.mem[n] = z3.Const(f"mem_{n}!{tag}", H.SET_TYPES[n].mem_sort)
+    if interp.decide(z3.Bool(f"generic_iteration!{tag}")):
+        done = z3.Const(f"done!{tag}", z3.ArraySort(esort, z3.BoolSort()))
+        x = z3.Const(f"x!{tag}", esort)
+        for name, f in lc.inv(ctx, done):
+            interp.assume(f)
+        interp.assume(z3.And(z3.Select(C, x), z3.Not(z3.Select(done, x))))
+        H.note_ground(interp, x)
+        if src is not None:  # items of a dict: (key, value)
+            kk = H.BondVal(x) if esort == BondS else x
+            elem = (kk, src.wrap(interp, ctx.h_entry.d_get(src.t, src.ref, x)))
+        else:
+            elem = H.BondVal(x) if esort == BondS else x
+        interp.assign(s.target, elem, fr)
+        try:
+            interp.block(s.body, fr)
+        except _Continue:
+            pass
+        for name, f in lc.inv(ctx, z3.Store(done, x, True)):
+            interp.oblige(f"loop{key[2]}-invariant-preserved/{name}", f)
+        raise LoopStepDone()
+    for name, f in lc.inv(ctx, C):
+        interp.assume(f)
+    interp.block(s.orelse, fr)
+    return None
